@@ -19,7 +19,8 @@ import (
 type C07Case struct {
 	N      int     `json:"n"`
 	CNF    [][]int `json:"cnf"`
-	Second int     `json:"second"` // method called a second time on the same problem value
+	Second int     `json:"second"`         // method called a second time on the same problem value
+	Flat   bool    `json:"flat,omitempty"` // clauses are sub-slices of one backing array (set through the exported fields after parsing the header)
 }
 
 var c07Counts = map[string]int{"quick": 6_000, "thorough": 150_000}
@@ -29,7 +30,39 @@ var musMethods = []string{"MUS", "MUSDeletion", "MUSInsertion", "MUSMaxSat"}
 func c07Gen(r *gen.Rng, tier string, idx int) interface{} {
 	c := &C07Case{Second: r.Intn(4)}
 	c.CNF, c.N = gen.RandomMUSInput(r, 8, 24)
+	c.Flat = r.Chance(1, 4)
+	for _, cl := range c.CNF {
+		if len(cl) < 2 { // ParseCNF keeps private state for unit clauses: those inputs only go through the parser
+			c.Flat = false
+		}
+	}
 	return c
+}
+
+// explainFlat builds the problem the way a caller with a compact clause store would: the header is parsed (which
+// initialises the private fields), then the clauses are set through the exported fields as sub-slices of one flat
+// array, so that each clause's spare capacity overlaps the following clauses.
+func explainFlat(cnf [][]int, n int, rec *Rec, scen string) (pb *explain.Problem) {
+	rec.Guard(scen+"/parse", func() {
+		var err error
+		pb, err = explain.ParseCNF(strings.NewReader(fmt.Sprintf("p cnf %d 0\n", n)))
+		if err != nil {
+			rec.Viol(scen+"/parse", "parse-error", "explain.ParseCNF", "explain.ParseCNF failed on a header-only text: %v", err)
+			pb = nil
+			return
+		}
+		var flat []int
+		for _, cl := range cnf {
+			flat = append(flat, cl...)
+		}
+		pos := 0
+		for _, cl := range cnf {
+			pb.Clauses = append(pb.Clauses, flat[pos:pos+len(cl)])
+			pos += len(cl)
+		}
+		pb.NbClauses = len(pb.Clauses)
+	})
+	return pb
 }
 
 func explainParse(cnf [][]int, n int, rec *Rec, scen string) (pb *explain.Problem) {
@@ -176,16 +209,26 @@ func c07Run(ci interface{}, rec *Rec) {
 			rec.Count("mus_clauses", len(res.Clauses))
 		}
 	}
+	if c.Flat {
+		rec.Count("inputs_with_clauses_in_one_flat_array", 1)
+	}
 	for _, m := range musMethods {
 		pb := explainParse(c.CNF, c.N, rec, m)
+		if c.Flat {
+			pb = explainFlat(c.CNF, c.N, rec, m)
+		}
 		if pb == nil {
 			return
 		}
-		one(pb, m, m)
+		scen := m
+		if c.Flat {
+			scen = m + "/flat-array"
+		}
+		one(pb, m, scen)
 		if musMethods[c.Second] != "" && m == musMethods[(c.Second+1)%4] {
 			// a second extraction on the same problem value
 			m2 := musMethods[c.Second]
-			one(pb, m2, m+"+"+m2)
+			one(pb, m2, scen+"+"+m2)
 		}
 	}
 	if !sat && len(c.CNF) >= 3 {
